@@ -511,7 +511,7 @@ func diffSlots(c []int) string {
 // typed decoders: every spelling of an extension value / entity uid decodes to the same value.
 // decode into used receivers: a decode target that already holds a value (a reused
 // variable, a slice element, an entity reused in a loop) must end up exactly as a fresh one.
-func usedReceivers() *core.Family {
+func UsedReceivers() *core.Family {
 	docs := []string{`{}`, `{"a":1}`, `{"b":{"__extn":{"fn":"decimal","arg":"1.5"}},"c":[1,2]}`, `[]`, `[1]`, `[true,"x",[2]]`}
 	entDocs := []string{
 		`{"uid":{"type":"U","id":"a"},"parents":[],"attrs":{},"tags":{}}`,
@@ -750,7 +750,7 @@ func Check() *core.Check {
 		Assumptions: []string{"strings that are not valid UTF-8 are outside the domain (JSON cannot carry them)", "datetimes in the first representable day are excluded here (recorded under C12)"},
 		Families: func(tier string) []*core.Family {
 			initSchema()
-			fams := []*core.Family{valueFamily(), entityFamily(), entityMapFamily(), requestFamily(), typedSpellings(), spellingFamily(), usedReceivers(), escapedKeys()}
+			fams := []*core.Family{valueFamily(), entityFamily(), entityMapFamily(), requestFamily(), typedSpellings(), spellingFamily(), UsedReceivers(), escapedKeys()}
 			if tier == "thorough" {
 				return append(fams, scalarFamily(0, 0x10FFFF))
 			}
